@@ -27,8 +27,8 @@ def main(argv):
         kanirun.run_harnesses(a.pid, harnesses, out, tier)
     rac = spec.get('rac')
     if rac:
-        from . import replay
-        replay.run_bounded_rac(a.pid, rac, out, tier)
+        from . import racrun
+        racrun.run_bounded_rac(a.pid, rac, out, tier)
     if out.violations:
         from . import replay
         for v in out.violations:
